@@ -107,7 +107,7 @@ class Ctx:
 
     def known_finding(self, key: str, what: str):
         line = f"KNOWN-FINDING: property={self.prop} {key}: {what}"
-        if line not in self.known_lines:
+        if not any(l.startswith(f"KNOWN-FINDING: property={self.prop} {key}:") for l in self.known_lines):
             self.known_lines.append(line)
 
     def violation(self, case: Dict[str, Any], why: str) -> str:
